@@ -193,7 +193,7 @@ def signature(err, text, flags, model, fam):
         digit_methods = set(re.findall(r"\b(\w*\D)(\d+)\(", text))
         if dup and all(re.search(r"\d$", d_) for d_ in dup) and digit_methods:
             return "c01.cxx-overload-suffix-collision"
-    if fam == "cxx-classes" and "E0124" in codes and set(codes) <= {"E0124", "E0080"}:
+    if fam == "cxx-classes" and "E0124" in codes and set(codes) <= {"E0124", "E0080", "E0062"}:       # (E0062: the same field twice in a hand-written Default)
         dup = set(re.findall(r"field `(\w+)` is already declared", err))
         if dup and dup <= {"vtable_", "_base", "_base_1"} and all(re.search(r"\b%s;" % re.escape(x), text) for x in dup):
             return "c01.cxx-user-field-named-like-synthetic-field"
